@@ -482,7 +482,7 @@ fn issuer_keys(cfg: &Cfg, rep: &mut Report, h: u64, steps: usize, mode: u32) {
             desc = format!("remove_key(key {ki}, registry {ri}, topic {t})");
             r = invoke(e, &issuer, "remove_key", args!(e, pk, regs[ri].clone(), *scheme, t));
             rep.case(format!("keys/remove/present={}/{}", have.contains(&(t, ri)), tag(&r)));
-            if r.is_ok() {
+            if r.is_ok() && want {
                 let v = pairs.get_mut(&ki).unwrap();
                 let pos = v.iter().position(|p| *p == (t, ri)).unwrap();
                 v.remove(pos);
@@ -592,7 +592,7 @@ fn token_binder(cfg: &Cfg, rep: &mut Report, h: u64, steps: usize, to_max: bool)
             desc = format!("unbind_token(T{t})");
             r = invoke(e, &c, "unbind_token", args!(e, toks[t].clone()));
             rep.case(format!("binder/unbind/bound={want}/count%100={}/{}", match bound.len() % 100 { 0 => "0", 1 => "1", _ => "mid" }, tag(&r)));
-            if r.is_ok() {
+            if r.is_ok() && want {
                 let pos = bound.iter().position(|x| *x == t).unwrap();
                 bound.swap_remove(pos);
                 is_bound[t] = false;
@@ -791,7 +791,7 @@ fn identities(cfg: &Cfg, rep: &mut Report, h: u64, steps: usize) {
             desc = format!("modify_identity(A{a}, ID{idn})");
             r = invoke(e, &c, "modify_identity", args!(e, accounts[a], ids[idn]));
             rep.case(format!("irs/modify/present={want}/{}", tag(&r)));
-            if r.is_ok() {
+            if r.is_ok() && want {
                 ident.get_mut(&a).unwrap().0 = idn;
             }
         } else if k < 43 {
@@ -807,7 +807,7 @@ fn identities(cfg: &Cfg, rep: &mut Report, h: u64, steps: usize) {
             desc = format!("recover_identity(A{a} -> A{b})");
             r = invoke(e, &c, "recover_identity", args!(e, accounts[a], accounts[b]));
             rep.case(format!("irs/recover/old_present={}/new_present={}/new_recovered={}/self={}/{}", ident.contains_key(&a), ident.contains_key(&b), recovered.contains_key(&b), a == b, tag(&r)));
-            if r.is_ok() {
+            if r.is_ok() && want {
                 let x = ident.remove(&a).unwrap();
                 ident.insert(b, x);
                 recovered.insert(a, b);
@@ -824,7 +824,7 @@ fn identities(cfg: &Cfg, rep: &mut Report, h: u64, steps: usize) {
             desc = format!("add_country_data_entries(A{a}, {n}) having {have}");
             r = invoke(e, &c, "add_country_data_entries", args!(e, accounts[a], v));
             rep.case(format!("irs/add_countries/fill={}/n={n}/{}", fill(15, have), tag(&r)));
-            if r.is_ok() {
+            if r.is_ok() && want {
                 ident.get_mut(&a).unwrap().1.extend(codes);
             }
         } else if k < 87 {
@@ -834,7 +834,7 @@ fn identities(cfg: &Cfg, rep: &mut Report, h: u64, steps: usize) {
             desc = format!("modify_country_data(A{a}, {idx}) having {have}");
             r = invoke(e, &c, "modify_country_data", args!(e, accounts[a], idx, cd(9000 + step as u32)));
             rep.case(format!("irs/modify_country/in-range={}/{}", (idx as usize) < have, tag(&r)));
-            if r.is_ok() {
+            if r.is_ok() && want {
                 ident.get_mut(&a).unwrap().1[idx as usize] = 9000 + step as u32;
             }
         } else {
@@ -844,7 +844,7 @@ fn identities(cfg: &Cfg, rep: &mut Report, h: u64, steps: usize) {
             desc = format!("delete_country_data(A{a}, {idx}) having {have}");
             r = invoke(e, &c, "delete_country_data", args!(e, accounts[a], idx));
             rep.case(format!("irs/delete_country/have={}/in-range={}/{}", have.min(2), (idx as usize) < have, tag(&r)));
-            if r.is_ok() {
+            if r.is_ok() && want {
                 ident.get_mut(&a).unwrap().1.remove(idx as usize);
             }
         }
